@@ -884,8 +884,6 @@ func (g *Gen) emitAxioms(entry *State) {
 		}
 		env := &SpecEnv{g: g, st: axst, old: axst, fn: g.f, argOverride: map[string]Term{}, bound: map[string]Term{}, boundTypes: map[string]types.Type{}}
 		ok := true
-		var hyps []string
-		w.axOuter = len(saved)
 		for _, b := range ax.Binders {
 			bt, err := env.resolveType(b.Typ)
 			if err != nil {
@@ -900,19 +898,20 @@ func (g *Gen) emitAxioms(entry *State) {
 			w.binders = append(w.binders, binderT{name, w.sortOf(bt)})
 		}
 		if ok {
-			w.axInner = len(w.binders)
-			w.axHyps = &hyps
 			t, err := env.evalBool(ax.Expr)
-			w.axHyps = nil
+			if err == nil {
+				// an axiom is closed over every heap component: naming a package-level variable in it would state it for
+				// every value of that variable (a contradiction in general). Pass the value as a binder instead.
+				for _, k := range keys {
+					if strings.HasPrefix(k, "G:") && strings.Contains(t.S, axst.heap[k].S+" ") {
+						err = fmt.Errorf("axiom reads the package-level variable %s: axioms hold for every heap, so it would be stated for every value of it", strings.TrimPrefix(k, "G:"))
+					}
+				}
+			}
 			if err != nil {
 				g.note("spec error in axiom: %v", err)
 			} else if ax.Name == "" {
-				body := t.S
-				if len(hyps) > 0 {
-					// the axiom speaks about well-typed heaps only: typing and allocation facts of what it reads are hypotheses
-					body = "(=> (and " + strings.Join(hyps, " ") + " true) " + body + ")"
-				}
-				w.assume(body) // closed over all active binders it mentions
+				w.assume(t.S) // closed over all active binders it mentions
 			} else if false {
 				// manual axiom: triggered only by use_<name>(binders)
 				var bs, srts, names []string
@@ -1307,10 +1306,10 @@ func solve(g *Gen, fname string) ([]result, bool) {
 		ctx.WriteString(header.String())
 		ctx.WriteString(strings.Join(assertsSoFar, "\n"))
 		ctx.WriteString("\n(check-sat)\n")
-		c := exec.Command("z3", "-in", fmt.Sprintf("-T:%d", vacuityTimeout), "smt.mbqi=false")
-		c.Stdin = &ctx
-		o, _ := c.Output()
-		vac <- firstLine(o)
+		// raced on every installed solver: an inconsistency that e-matching alone does not find (an axiom that
+		// quantifies over a global it names, say) was proved by cvc5 and missed by z3 4.8.12 with MBQI off
+		st, _ := race(ctx.String(), vacuityTimeout, "")
+		vac <- st
 	}()
 	// array extensionality is switched off in the main session (it only weakens the solver, and made a function with a
 	// 25-entry map literal take 33 s instead of 0.1 s); an obligation that needs it is decided by the second chance below
